@@ -1,5 +1,5 @@
 (* Props_C11.v — C11: suspicion timeout takes effect iff unrefuted; Down is final until forgotten. *)
-From Foca Require Import L_TimeoutLast L_Evidence L_Monotone L_Epoch.
+From Foca Require Import L_TimeoutLast L_Evidence L_Monotone L_Epoch Concrete ProbeM.
 From Foca Require Import Laws L_Lists MembersM FocaM L_Members L_MembersInv L_Join L_Forward L_Reject L_Timeout.
 From Coq Require Import Permutation.
 
@@ -136,6 +136,22 @@ Proof. exact (history_epoch rnd l f). Qed.
 
 End C11.
 
+(* non-vacuity: a round that starts on the recovery path (the indirect-stage timer of the previous round was
+   lost) reports IncompleteProbeCycle and leaves the epoch alone; the instance stays Connected *)
+Definition ex11_cfg : config := mkConfig 1500000000 500000000 3 10 3000000000 86400000000000 1400 false None None None.
+Definition ex11_o : oracle := fun _ r => match r with RShuffle _ => [0; 1; 2; 3] | RChoose _ => [0] | RRange _ => [0] | RTie _ _ => [] end.
+Definition ex11_f0 : @foca cid N cid_handler := foca_init (mkCid 1 0 0 0) ex11_cfg (mkChst 0 255 []).
+Definition ex11_f : @foca cid N cid_handler :=
+  fst (fst (fst (step ex11_o ex11_f0 (IApplyMany [mkMember (mkCid 2 0 0 0) 0 Alive; mkMember (mkCid 3 0 0 0) 0 Alive] false)))).
+Definition ex11_f1 : @foca cid N cid_handler :=
+  fst (fst (fst (step ex11_o ex11_f (ITimer (TProbeRandomMember (token ex11_f)))))).
+Example C11_epoch_example :
+  let l := [ITimer (TProbeRandomMember (token ex11_f)); ITimer (TProbeRandomMember (token ex11_f))] in
+  token (run_calls ex11_o ex11_f l) = token ex11_f
+  /\ snd (fst (step ex11_o ex11_f1 (ITimer (TProbeRandomMember (token ex11_f))))) = Failed EIncompleteProbeCycle
+  /\ conn (run_calls ex11_o ex11_f l) = Connected.
+Proof. vm_compute. repeat split; auto. Qed.
+
 Print Assumptions C11_stale_epoch_noop.
 Print Assumptions C11_cancelled_noop.
 Print Assumptions C11_effective.
@@ -146,3 +162,4 @@ Print Assumptions C11_down_final_along_histories.
 Print Assumptions C11_epoch_terms.
 Print Assumptions C11_epoch_changes_only_by_idle_defunct_rejoin.
 Print Assumptions C11_epoch_along_histories.
+Print Assumptions C11_epoch_example.
